@@ -265,3 +265,21 @@ Definition valid (p : proj) (e : edit) : bool := e_script e || (uses_find p && e
 Definition bad_point (v : variant) (p : proj) (e : edit) (n : nat) : bool :=
   uses_find p && negb (e_script e) &&
   ((negb (adeps v) && (n =? deps_pt p)) || (negb (cal v) && negb (dnc v) && (n =? window_pt v p))).
+
+(* ---- re-configure of an existing build directory with OTHER options (history `options` of harness/c10.py) ----
+   Nothing in the tree is edited (e_none): generation New now means written with the new options, and the new options
+   reach .bfg_environ first (env_ops), everything else follows in the order of run_ops.  The next regeneration attempt
+   is the backend's own command, bfg9000 regenerate --lazy, run by hand (GNU Make would not start it: no prerequisite
+   of the regenerate rule changed).  Crash points n >= 2 only: before that .bfg_environ still holds the old options
+   (n = 0) or is truncated (n = 1). *)
+Definition e_none := mkE false false false.
+Definition reconf_followup (v : variant) (p : proj) (n : nat) : bool * fs :=
+  regenerate true v p e_none 5 (crash 4 n (run_ops v p) (fs_old p)).
+Definition reconf_ok (v : variant) (p : proj) (n : nat) : bool :=
+  let r := reconf_followup v p n in negb (fst r) || describes_new (snd r).
+(* the two kinds of crash points after which the by-hand lazy regeneration exits 0 on stale files although the code has
+   F1 (dnc): the new options are saved and this run has not opened .bfg_find_cache yet (the old cache is trusted);
+   the build file is opened = truncated and not yet written (an empty file that is not older than the cache).
+   window_pt = number of mutations up to and including the save of the cache: there the marker F1 relies on exists *)
+Definition reconf_bad (v : variant) (p : proj) (n : nat) : bool :=
+  (n + 2 <=? window_pt v p) || (n =? window_pt v p + 1).
